@@ -39,6 +39,7 @@ type ctxConn struct {
 	closed    bool
 	onDrain   func() // called (once, inside Read) when the supplied bytes have all been handed out
 	blockW    bool   // Write blocks until a deadline passes or the conn is closed (like net.Pipe with a stalled peer)
+	slowDL    bool   // SetDeadline takes a couple of milliseconds to take effect (a busy kernel, a wrapped transport)
 	noDL      bool   // a transport without deadline support (an ssh channel, a websocket adapter): Set*Deadline report an error and do nothing
 }
 
@@ -121,6 +122,12 @@ func (c *ctxConn) Close() error {
 func (c *ctxConn) LocalAddr() net.Addr  { return &net.TCPAddr{} }
 func (c *ctxConn) RemoteAddr() net.Addr { return &net.TCPAddr{} }
 func (c *ctxConn) SetDeadline(t time.Time) error {
+	c.mu.Lock()
+	slow := c.slowDL
+	c.mu.Unlock()
+	if slow {
+		time.Sleep(2 * time.Millisecond)
+	}
 	c.mu.Lock()
 	if !c.noDL {
 		c.wdeadline = t
@@ -214,6 +221,7 @@ func genC10(env *core.Env, emit func(core.Case)) {
 				case "cancel-when-hello-fully-read":
 					// the context ends at the very moment the last byte of the hello is handed to NewConn:
 					// NewConn is still running, the watcher fires while the hello is being processed
+					c.slowDL = rep%3 == 0
 					c.onDrain = func() { c.event("cancel"); cancel() }
 					c.Supply(hello)
 				case "cancel-when-hello-fully-read-no-deadlines":
